@@ -46,10 +46,23 @@ def threshold_chain(ctx):
         targ = init.defaults.get("threshold")
     if targ is None:
         raise AnalysisError("no threshold value reaches Solver.__init__")
+    configurable = None
     try:
         T = prog.const_eval(targ, solve.mod)
     except NotConst as e:
-        raise AnalysisError("threshold expression `%s` is not a constant: %s" % (src(targ), e))
+        # `Solver(threshold=self.threshold)`: a setting of the game object; its value is the constructor default unless a caller
+        # passes another one - the rules below are evaluated for the default
+        T = None
+        p_ = attr_path(targ)
+        ginit = prog.resolve_method(solve.cls.name, "__init__") if solve.cls is not None else None
+        if p_ and p_.startswith("self.") and ginit is not None:
+            for st in walk_no_nested_defs(ginit.node):
+                if isinstance(st, ast.Assign) and len(st.targets) == 1 and attr_path(st.targets[0]) == p_ and isinstance(st.value, ast.Name) and st.value.id in ginit.defaults:
+                    ok_, v_ = prog.try_const(ginit.defaults[st.value.id], ginit.mod)
+                    if ok_ and isinstance(v_, (int, float)):
+                        T, configurable = v_, st.value.id
+        if T is None:
+            raise AnalysisError("threshold expression `%s` is not a constant: %s" % (src(targ), e))
     d = None
     floor_expr = None
     thr_store = None
@@ -66,7 +79,7 @@ def threshold_chain(ctx):
         d = prog.const_eval(floor_expr, init.mod, env={"threshold": T})
     except NotConst as e:
         raise AnalysisError("self.floor expression `%s` does not fold: %s" % (src(floor_expr), e))
-    out = dict(T=T, d=d, floor_src=src(floor_expr), thr_src=src(targ), thr_store=src(thr_store) if thr_store is not None else None,
+    out = dict(T=T, d=d, configurable=configurable, floor_src=src(floor_expr), thr_src=src(targ), thr_store=src(thr_store) if thr_store is not None else None,
                floor_uses_threshold=any(isinstance(x, ast.Name) and x.id == "threshold" for x in ast.walk(floor_expr)),
                where=init.where(), ctor_where=solve.where(ctor))
     ctx.cache["threshold_chain"] = out
